@@ -6,7 +6,7 @@
   tools/seeded.py confirm <name>|all
         scratch worktree of /repo HEAD under /tmp: demo passes clean, fails with the patch,
         the 518 baseline tests still pass with the patch; worktree removed afterwards
-  tools/seeded.py run <name>|all [--tier quick] [--prop Cxx  (another property's check)]
+  tools/seeded.py run <name>|all [--tier quick] [--prop Cxx  (another property's check)] [--seed N]
         git -C /repo apply patch; ./check <property>; git -C /repo checkout -- . ; record outcome
   tools/seeded.py table
         rewrite seeded/README.md from the recorded results
@@ -128,7 +128,7 @@ def cmd_confirm(name):
         shutil.rmtree(wt, ignore_errors=True)
 
 
-def cmd_run(name, tier="quick", in_repo=False, other=None):
+def cmd_run(name, tier="quick", in_repo=False, other=None, seed=None):
     """Run the property's check against the seeded change.  Default: the patch is applied to a
     scratch worktree of /repo HEAD and the check is pointed at it with CNFGEN_REPO (safe while other
     runs use /repo); with --in-repo the patch is applied to /repo itself and undone afterwards."""
@@ -136,6 +136,8 @@ def cmd_run(name, tier="quick", in_repo=False, other=None):
     meta = load_meta(name)
     prop = other or meta["property"]
     key = tier if not other else "%s@%s" % (tier, other)
+    if seed is not None:
+        key += "#seed%s" % seed
     env = dict(os.environ)
     wt = None
     if in_repo:
@@ -171,7 +173,8 @@ def cmd_run(name, tier="quick", in_repo=False, other=None):
             sh(["git", "-C", REPO, "worktree", "remove", "--force", wt])
         return
     try:
-        r = subprocess.run([os.path.join(VERIF, "check"), prop, "--tier", tier], cwd=VERIF, stdout=subprocess.PIPE,
+        r = subprocess.run([os.path.join(VERIF, "check"), prop, "--tier", tier] + (["--seed", str(seed)] if seed is not None else []),
+                           cwd=VERIF, stdout=subprocess.PIPE,
                            stderr=subprocess.STDOUT, text=True, timeout=7200, env=env)
     finally:
         if in_repo:
@@ -226,6 +229,7 @@ if __name__ == "__main__":
     elif a[0] == "run":
         tier = a[a.index("--tier") + 1] if "--tier" in a else "quick"
         for n in names(a[1]):
-            cmd_run(n, tier, "--in-repo" in a, a[a.index("--prop") + 1] if "--prop" in a else None)
+            cmd_run(n, tier, "--in-repo" in a, a[a.index("--prop") + 1] if "--prop" in a else None,
+                    a[a.index("--seed") + 1] if "--seed" in a else None)
     elif a[0] == "table":
         cmd_table()
